@@ -118,8 +118,10 @@ class Ctl(object):
         allowed: the busy spell is shorter than one time-out.)"""
         if self.policy.active and self.policy.busy and self.n_tries < 2:
             return False
+        # (sleeps that last longer than asked make nothing fail)
         return not (self.policy.active and (
-            any(self.policy.rates.values()) or self.policy.partitions))
+            any(v for k, v in self.policy.rates.items()
+                if k != "sleep_overshoot") or self.policy.partitions))
 
     def heal(self):
         self.net.heal()
